@@ -8,7 +8,7 @@ case kinds
 """
 from __future__ import annotations
 
-from vf import core, pipedrive, rvdrive
+from vf import core, pipedrive, rvdrive, rvtext
 from vf.core import Violation
 from vf.gen import rvprog
 from vf.props import c02, c07
@@ -44,14 +44,87 @@ def _fetch_logger(log):
     return hook
 
 
+WARM = "addi x5, x0, 1\naddi x6, x5, 2\naddi x7, x6, 3\n"
+
+
+def check_reuse(case, stats):
+    """The option is a property of the simulation object for its whole life: a simulation without hazard detection that
+    has run one program and is loaded again behaves, instruction for instruction, like a fresh simulation without hazard
+    detection that is put into the same architectural state (registers, pc)."""
+    from architecture_simulator.simulation.runtime_errors import InstructionExecutionException
+    text = rvtext.render(case["prog"])
+    a = rvdrive.new_sim("five", False, case.get("dcache"), None)
+    a.load_program(WARM)
+    a.run()
+    a.load_program(text)
+    b = rvdrive.new_sim("five", False, case.get("dcache"), None)
+    b.load_program(text)
+    for i, v in enumerate(a.state.register_file.registers):     # element-wise: the register list hard-wires x0
+        b.state.register_file.registers[i] = v
+    b.state.program_counter = a.state.program_counter
+    stalls0 = a.state.performance_metrics.stalls
+    n = 0
+    while n < case.get("max", 200):
+        da, db = bool(a.is_done()), bool(b.is_done())
+        if da != db:
+            raise Violation("reused-simulation-differs", case, f"after {n} steps: is_done() {da} (reused) vs {db} (fresh)")
+        if da:
+            break
+        ea = eb = None
+        try:
+            a.step()
+        except InstructionExecutionException as ex:
+            ea = ex
+        try:
+            b.step()
+        except InstructionExecutionException as ex:
+            eb = ex
+        n += 1
+        if (ea is None) != (eb is None) or (ea is not None and ea.address != eb.address):
+            raise Violation("reused-simulation-differs", case, f"step {n}: {ea!r} (reused) vs {eb!r} (fresh)")
+        if ea is not None:
+            break
+        ra, rb = rvdrive.regs_of(a), rvdrive.regs_of(b)
+        if ra != rb or a.state.program_counter != b.state.program_counter or a.state.output != b.state.output:
+            bad = [(i, hex(ra[i]), hex(rb[i])) for i in range(32) if ra[i] != rb[i]]
+            raise Violation("reused-simulation-differs", case, f"step {n}: (reg, reused, fresh) {bad}, pc {a.state.program_counter} vs {b.state.program_counter}")
+    sa, sb = a.state.performance_metrics.stalls - stalls0, b.state.performance_metrics.stalls
+    if sa != sb:
+        raise Violation("reused-simulation-differs", case, f"stalls after the reload: {sa} (reused) vs {sb} (fresh)")
+    stats.count(case, n >= 3, {"kind:reuse"}, sample_tag="reuse")
+
+
 def check(case, stats):
     if case["kind"] == "pad":
         return check_pad(case, stats)
+    if case["kind"] == "reuse":
+        return check_reuse(case, stats)
     ref, f0 = c07.check_schedule(case, stats, detect=False)   # retire address per step, total cycles, fault cycle
     # re-run with the fetch log (kept separate so the schedule clause is judged on an unwrapped simulator)
     log = []
     mx = f0.steps
-    f = pipedrive.run(case, "five", False, max_steps=mx, regs_each_step=True, sim_hook=_fetch_logger(log))
+    # ... and, in this second run, next to a simulation of the same program WITH hazard detection that was created later
+    # and is stepped alternately: the option belongs to the simulation object, not to the process
+    decoy = {}
+    logger = _fetch_logger(log)
+
+    def hook(sim):
+        logger(sim)
+        d = rvdrive.new_sim("five", True)
+        rvdrive.load(d, case["prog"], case.get("regs"), case.get("mem"))
+        decoy["sim"] = d
+
+    def step_decoy(sim):
+        d = decoy["sim"]
+        try:
+            if not d.is_done():
+                d.step()
+        except Exception:
+            decoy["sim"] = rvdrive.new_sim("five", True)     # it faulted: keep a fresh (done) one around
+
+    with_decoy = not case.get("alpha") or len(case["prog"]) <= 3      # (the long exhaustive tail runs alone, for speed)
+    f = pipedrive.run(case, "five", False, max_steps=mx, regs_each_step=True, sim_hook=hook if with_decoy else logger,
+                      pre_step=step_decoy if with_decoy else None)
     for s, regs in enumerate(f.regs_each_step, 1):
         exp = ref.regs_at(s)
         if regs != exp:
@@ -136,6 +209,10 @@ def pad_case(max_len, max_steps):
     return rvprog.program_case(max_len).map(lambda c: dict(c, kind="pad", max=max_steps))
 
 
+def reuse_case():
+    return rvprog.program_case(14, min_len=5).map(lambda c: {"kind": "reuse", "prog": c["prog"], "max": 200})
+
+
 def alpha_cases(length, part, parts):
     for c in c02.alpha_cases(length, part, parts):
         yield dict(c, kind="prog")
@@ -162,6 +239,7 @@ def shards(tier, seed):
             items.append({"what": "prog", "n": 250, "len": 14, "max": 200, "seed": seed * 1000 + i})
         for i in range(2):
             items.append({"what": "pad", "n": 200, "len": 10, "max": 200, "seed": seed * 1000 + 40 + i})
+        items.append({"what": "reuse", "n": 200, "seed": seed * 1000 + 60})
     else:
         for L in (1, 2, 3, 4):
             items.append({"what": "alpha", "len": L, "part": 0, "parts": 1})
@@ -173,6 +251,8 @@ def shards(tier, seed):
             items.append({"what": "prog", "n": 1500, "len": 14 if i % 2 else 28, "max": 400, "seed": seed * 1000 + i})
         for i in range(16):
             items.append({"what": "pad", "n": 1000, "len": 12, "max": 400, "seed": seed * 1000 + 40 + i})
+        for i in range(4):
+            items.append({"what": "reuse", "n": 1500, "seed": seed * 1000 + 60 + i})
     return items
 
 
@@ -182,6 +262,8 @@ def run_shard(item, stats):
     if w == "alpha":
         core.run_cases(alpha_cases(item["len"], item["part"], item["parts"]), check, stats, km, distinct=True)
         stats.exhaustive_parts.append(f"all {len(c02.ALPHABET)}^{item['len']} alphabet sequences of length {item['len']}")
+    elif w == "reuse":
+        core.hyp_search(reuse_case(), check, stats, item["n"], item["seed"], km)
     elif w == "prog":
         core.hyp_search(prog_case(item["len"], item["max"]), check, stats, item["n"], item["seed"], km)
     else:
